@@ -321,7 +321,19 @@ def specfn(ctx, item, lift):
     so.undef = dict(r.undef_flags)
     so.intrinsic = r.intrinsic
     so.accessed = r.accessed
+    so.classes = r.classes
+    # flat memory model: the bases of cs/ds/es/ss are zero (only fs/gs carry a base)
+    for nme, v in list(ctx.inputs.items()):
+        if nme in ("cs_base", "ds_base", "es_base", "ss_base"):
+            so.assume.append(v == 0)
     return so
+
+
+OBS = set(E.R64) | set(E.R32[:8]) | set(E.XMM) | set(X.FLAGS)
+
+
+def observable(n):
+    return n in OBS
 
 
 def steps_for(d):
@@ -341,28 +353,35 @@ def work(item):
     from checks import x86native as N
     win = (N.WIN_LO, N.WIN_HI, N.PIN) if item["arch"] == "amd64" else None
     item = dict(item); item["pin_pc"] = True
-    r = liftcheck.analyse(item["arch"], "little", item, specfn, k=steps_for(d), timeout_ms=int(os.environ.get("VERIF_QUERY_MS", "30000")), window=win)
+    r = liftcheck.analyse(item["arch"], "little", item, specfn, k=steps_for(d), timeout_ms=int(os.environ.get("VERIF_QUERY_MS", "30000")), window=win,
+                          observables=observable, flag_names=X.FLAGS)
     r["sig"] = signature(item, r)
     r["mn"] = d["mn"]
     return r
 
 
-def signature(item, r):
+def opcoarse(d):
+    ops = d.get("ops", [])
+    if not ops:
+        return "-"
+    s = str(E.opsize(ops[0]))
+    if any(o[0] == "mem" for o in ops): s += "m"
+    if any(o[0] == "reg" and E.REGINFO[o[1]][2] == 'h' for o in ops): s += "h"
+    if any(o[0] == "imm" for o in ops): s += "i"
+    return s
+
+
+def sig_base(item):
+    """Role signature: architecture / mnemonic (+rep kind).  Operand sizes and registers are
+    deliberately not part of it: the listed defects are in per-mnemonic semantics builders."""
     d = item["desc"]
-    cls = ",".join(opclass(o) for o in d.get("ops", []))
     extra = ""
-    if d.get("rep"): extra += "/" + d["rep"]
-    if "size" in d: extra += f"/s{d['size']}"
-    kinds = set()
-    for n in r.get("diffs", []) or []:
-        if n in ("CF", "ZF", "SF", "OF", "DF", "mem", "pc", "incomplete", "successors-not-exclusive") or n.startswith("fault") or n.startswith("width"):
-            kinds.add(n)
-        else:
-            kinds.add("reg")
-    st = r.get("status")
-    if st != "sat":
-        kinds.add(st)
-    return f"{item['arch']}/{d['mn']}{extra}/{cls}/{'+'.join(sorted(kinds))}"
+    if d.get("rep"): extra += "." + d["rep"]
+    return f"{item['arch']}/{d['mn']}{extra}"
+
+
+def signature(item, r):
+    return sig_base(item) + "/" + r.get("status", "?")
 
 
 # ----------------------------------------------------------------- main --
@@ -402,7 +421,18 @@ def finish(rep, items, results):
             # my encoder and capstone disagree about instruction length: not evidence against falcon
             rep.extra.setdefault("encoder_mismatch", []).append(f"{it['label']} {it['bytes']}: {r['detail']}")
         elif st == "vacuous":
-            rep.encoder_defect(f"vacuous query {it['label']}")
+            rep.extra.setdefault("no_admissible_state", []).append(it["label"])
+        elif st == "sat" and r.get("findings"):
+            rep.count("sat")
+            for f in r["findings"]:
+                r1 = dict(r); r1["model"] = f["model"]; r1["diffs"] = f["diffs"]
+                confirmed, note = x86native.confirm(it, r1)
+                what = f"{it['label']} bytes={it['bytes']}: differs in {f['diffs']} for states in class '{f['class']}'; {note}"
+                if confirmed is False:
+                    rep.encoder_defect(f"model does not reproduce: {what}")
+                    continue
+                sig = f"{sig_base(it)}/{f['class']}/{f['group']}"
+                rep.violation(sig, what, {"item": it, "finding": f, "replay_note": note})
         elif st in ("sat", "sorterr", "panic", "died", "incomplete", "intrinsic-mismatch"):
             rep.count("sat")
             confirmed, note = x86native.confirm(it, r)
@@ -410,7 +440,8 @@ def finish(rep, items, results):
             if confirmed is False:
                 rep.encoder_defect(f"model does not reproduce: {what}")
                 continue
-            rep.violation(r["sig"], what, {"item": it, "result": r, "replay_note": note})
+            d0 = (r.get("diffs") or [st])[0]
+            rep.violation(f"{sig_base(it)}/{d0 if st == 'sat' else st}", what, {"item": it, "result": r, "replay_note": note})
     rep.extra["status_counts"] = counts
     rep.extra["unsat_by_mnemonic"] = bymn
     rep.functions_encoded = ["translator::x86::{X86,Amd64}::translate_block (run concretely per encoding; output IL encoded)",
